@@ -221,6 +221,13 @@ def check(ctx):
     check_harvester_normalisation(S, r4)
     from c07 import check_type_text_splitting
     check_type_text_splitting(P, r4)
+    # ... and the argument list of a map / tuple is cut by a scan that tracks all three bracket kinds: a comma inside a tuple key is no separator
+    # (shared with C05-D5 / C01-D4); otherwise the fragments `(A` and `B)` name no type and the edge to A and B is not recorded
+    from c05 import check_splitters
+    n_before = len(r4.violations)
+    check_splitters(S, r4)
+    for v_ in r4.violations[n_before:]:
+        v_.rule = r4.id
     for v in r4.violations:
         v.rule = r4.id
     rl = P.find("CommandAnalyzer::resolve_types_lazily")
